@@ -1,16 +1,22 @@
-(* The `_refuted` pattern on the edit model: finding F-23 (a successful edit that is silently lost) as a witness
-   evaluated inside Coq, to be replayed against the implementation by the known-findings check. *)
+(* Finding F-23 (a successful edit that was silently lost), repaired in the repository (99873d2) and in the model (E.EditDeep): the witness that
+   refuted "a successful set changes what is printed" is now evaluated on the re-targeting functions and shows the edit. *)
 From Coq Require Import List Ascii String Bool Arith. Import ListNotations.
-From E Require Import EditModel EditRun EditProofs.
+From E Require Import EditModel EditRun EditProofs EditDeep.
 Open Scope string_scope.
 
 (* { meta = { foo.version = true; }; }   then   set meta.foo.z 7 *)
 Definition d23 : idoc := ISet true [([s "meta"], ISet true [([s "foo"; s "version"], IAtom (s "true"))])].
 Definition after23 : option (st * res unit) :=
-  match parse_doc d23 with Ok st0 => Some (m_set st0 [s "meta"; s "foo"; s "z"] (VAt (s "7"))) | Err _ => None end.
-(* the edit reports success and the printed document is unchanged *)
-Example F23_witness :
-  match parse_doc d23, after23 with
-  | Ok st0, Some (st1, Ok tt) => tree_eqb 100 (view st1) (view st0) = true
-  | _, _ => False end.
+  match parse_doc d23 with Ok st0 => Some (set_deep st0 [s "meta"; s "foo"; s "z"] (VAt (s "7"))) | Err _ => None end.
+(* the edit reports success and the printed document shows it: meta = { foo.version = true; foo.z = 7; } *)
+Example F23_repaired :
+  match after23 with
+  | Some (st1, Ok tt) => tree_eqb 100 (view st1) (TS [(s "meta", TS [(s "foo.version", TA (s "true")); (s "foo.z", TA (s "7"))])]) = true
+  | _ => False end.
 Proof. vm_compute. reflexivity. Qed.
+(* the root-level step alone (the code before the repair) reported success and printed the document unchanged *)
+Example F23_root_step_alone_loses_it :
+  match parse_doc d23 with
+  | Ok st0 => let '(st1, r) := m_set st0 [s "meta"; s "foo"; s "z"] (VAt (s "7")) in r = Ok tt /\ tree_eqb 100 (view st1) (view st0) = true
+  | _ => False end.
+Proof. vm_compute. split; reflexivity. Qed.
